@@ -34,7 +34,9 @@ DEFAULT_SAFETY = [
     (r'::reveal$', {'props': ['C13'], 'secondary': ['C01', 'C02']}),
     (r'::hide$', {'props': ['C12'], 'secondary': ['C07']}),
     (r'(::try_read\w*|::decode_avp|::read)$', {'props': ['C01'], 'secondary': []}),
-    (r'(::write|::make_flags_and_length)$', {'props': ['C06'], 'secondary': ['C07', 'C09']}),
+    # an unlabelled failure in an encoder (a changed or added assert!, an index) may be position-dependent (C09),
+    # size-dependent (C07) or a plain in-domain panic (C06/C03): decided by a concrete witness
+    (r'(::write|::make_flags_and_length)$', {'props': [], 'secondary': ['C06', 'C07', 'C09', 'C03', 'C04']}),
     (r'(::get_length)$', {'props': ['C07'], 'secondary': ['C06']}),
 ]
 
@@ -170,7 +172,7 @@ def build_fnkey_lookup(image_text, maps):
         if len(cands) > 1:
             # disambiguate by impl header preceding the function in the image
             hdr = None
-            for j in range(best[0] - 1, max(0, best[0] - 400), -1):
+            for j in range(best[0] - 1, 0, -1):
                 mm = re.match(r'^\s*(?:unsafe\s+)?impl\b(.*)\{\s*(//.*)?$', lines[j - 1])
                 if mm and not lines[j - 1].startswith('        '):
                     hdr = 'impl' + mm.group(1)
@@ -578,6 +580,16 @@ def decide_one(p, a, seed, t0, vr, cr, seeds, kr, fails, maps, image, lookup, co
                                'rendered': json.dumps(canary_info['frame_hits'][:10], indent=1), 'fn': None, 'labels': [], 'lines': [],
                                'names': ['C19:frame:%s:%s' % (h['file'], h['what'])]})
     n_label_pre = len(my_labels) + extra_obl
+    # thorough tier: the bounded witness search runs even when every obligation is discharged; a concrete failing
+    # input on the real crate while the proofs pass would mean an assumed contract or the specification is wrong
+    search_info = None
+    if a.tier == 'thorough' and not violations and not kani_viol:
+        w = witness.search(p, ['thorough-tier cross-check'], {'message': 'thorough-tier witness search', 'fn': None}, REPO)
+        search_info = {'ran': True, 'output_tail': (w or {}).get('output', '')[-300:], 'witness': (w or {}).get('failing_input')}
+        if w and w.get('failing_input'):
+            violations.append({'kind': 'verification', 'message': 'witness search found a failing input although every obligation is discharged',
+                               'rendered': w.get('output', ''), 'fn': None, 'labels': [], 'lines': [], 'witness': w,
+                               'names': ['search:' + str(w['failing_input'].get('case'))]})
     # ---- report -------------------------------------------------------------------------------------
     printed_violation = False
     known_hits = []
@@ -677,6 +689,8 @@ def decide_one(p, a, seed, t0, vr, cr, seeds, kr, fails, maps, image, lookup, co
         'verus': {'verified': vr['json']['verification-results'].get('verified'), 'errors': vr['json']['verification-results'].get('errors'),
                   'wall_s': round(vr['wall'], 2), 'smt_time_s': round(smt_total, 2)},
         'proof_stability_warnings': unstable[:20],
+        'witness_search': search_info or {'ran': bool(candidates or violations), 'note': 'bounded, deterministic; used to attach failing inputs and to decide secondary attributions; never counted as an obligation'},
+        'lost_anchors': maps.get('lost_anchors', {}),
         'explanation': 'Each obligation is a labelled contract clause, loop invariant or lemma of the crate image (real function bodies of /repo/src, '
                        'mechanically inlined), or the safety obligation of one function, or one complete Kani harness on the real crate. '
                        'Bounded Kani harnesses are listed under `bounded` and are not counted.',
